@@ -157,6 +157,15 @@ class C07Universe(gen.Universe):
             m.Symbol(names.fresh(), FunctionType(BOOL, [self.pair_types[1], ArrayType(INT, INT)])),
             m.Symbol(names.fresh(), FunctionType(STRING, [STRING, self.pair_types[0]])),
         ]
+        # user symbols spelled like the DAG printer's let names
+        self.def_like = []
+        for j in range(3):
+            nm = ".def_%d" % j
+            if nm not in names.used and rng.random() < 0.8:
+                names.used.add(nm)
+                sy = m.Symbol(nm, BOOL)
+                self.syms[BOOL].append(sy)
+                self.def_like.append(sy)
         self.qvars = [m.Symbol(names.fresh(), BOOL), m.Symbol(names.fresh(), INT), self.syms[INT][0],
                       m.Symbol(names.fresh(), BVType(2)), self.syms[BOOL][0], m.Symbol(names.fresh(), self.U),
                       m.Symbol(names.fresh(), self.pair_types[0]), m.Symbol(names.fresh(), REAL)]
@@ -406,11 +415,13 @@ def case_lines(enc, interps_enc, k, texts):
     return lines
 
 
-def judge(ctx, tag, line, ans, f_readable, info, texts, enc):
+def judge(ctx, tag, line, ans, f_readable, info, texts, enc, extra=None):
     """one driver answer -> reports"""
     layer, printer = tag.split(":")
     rep = {"request": line, "answer": ans, "formula": f_readable, "printer": printer, "enc": enc,
            "text": texts.get(printer, ("", ""))[1][:2000], "info": {k: v for k, v in info.items()}}
+    if extra:
+        rep.update(extra)
     if ans.startswith("bad-op"):
         ctx.infra("C07 driver rejected a request: %s :: %s" % (ans, f_readable))
         return
@@ -467,6 +478,154 @@ def case_info(f, uni_info):
             "known_ops": sorted(known_ops_in(f))}
 
 
+# ------------------------------------------------------------------ multi-command scripts
+def enc_cmd(c):
+    """SmtLibCommand -> wire (grammar in Drivers/C07.lean: pCmds)"""
+    import pysmt.smtlib.commands as smtcmd
+    if c.name == smtcmd.SET_LOGIC:
+        return "L " + hx(str(c.args[0]))
+    if c.name == smtcmd.DECLARE_SORT:
+        return "S %s %d" % (hx(c.args[0].name), c.args[0].arity)
+    if c.name == smtcmd.DECLARE_FUN:
+        return "F %s %s" % (hx(c.args[0].symbol_name()), wire.enc_symty(c.args[0].symbol_type()))
+    if c.name == smtcmd.DECLARE_CONST:
+        return "C %s %s" % (hx(c.args[0].symbol_name()), wire.enc_type(c.args[0].symbol_type()))
+    if c.name == smtcmd.ASSERT:
+        return "A " + wire.enc_term(c.args[0])
+    if c.name == smtcmd.PUSH:
+        return "P %d" % c.args[0]
+    if c.name == smtcmd.POP:
+        return "O %d" % c.args[0]
+    if c.name == smtcmd.CHECK_SAT:
+        return "K"
+    raise ValueError(c.name)
+
+
+def serialize_script(script, with_file=False):
+    out = {}
+    for key, dag in (("multi_tree", False), ("multi_dag", True)):
+        try:
+            buf = io.StringIO()
+            script.serialize(buf, daggify=dag)
+            out[key] = ("ok", buf.getvalue())
+        except Exception as e:          # noqa: BLE001
+            out[key] = ("exc", type(e).__name__ + ": " + str(e)[:200])
+    if with_file:
+        fd, path = tempfile.mkstemp(suffix=".smt2")
+        os.close(fd)
+        try:
+            script.to_file(path)            # daggify=True is the default
+            out["multi_file"] = ("ok", open(path).read())
+        except Exception as e:          # noqa: BLE001
+            out["multi_file"] = ("exc", type(e).__name__ + ": " + str(e)[:200])
+        finally:
+            os.unlink(path)
+    return out
+
+
+def build_script(env, cmds_spec):
+    """cmds_spec: list of (name, arg) with FNodes / decls -> SmtLibScript"""
+    from pysmt.smtlib.script import SmtLibScript, SmtLibCommand
+    script = SmtLibScript()
+    for name, args in cmds_spec:
+        script.add_command(SmtLibCommand(name=name, args=args))
+    return script
+
+
+def gen_script_case(ctx, env, uni, fg, ig, uni_info, with_file):
+    """one script with 2-4 assertions (push/pop in between), declarations of everything it uses; user symbols named
+    `.def_k` occur only from the second assertion on (most of the time)"""
+    import pysmt.smtlib.commands as smtcmd
+    rng, m = ctx.rng, uni.mgr
+    k = rng.randint(2, 4)
+    fs = []
+    for i in range(k):
+        f = fg.gen(BOOL, rng.choice([1, 2, 2, 3]))
+        if i == 0:
+            for _ in range(12):
+                if not any(n.startswith(".def_") for n in all_symbol_names(f)):
+                    break
+                f = fg.gen(BOOL, rng.choice([1, 2]))
+            else:
+                p0 = [sy for sy in uni.syms[BOOL] if not sy.symbol_name().startswith(".def_")][0]
+                f = m.Or(p0, m.Not(p0))
+        elif uni.def_like and rng.random() < 0.7:
+            d = rng.choice(uni.def_like)
+            g = f
+            shape = rng.randrange(5)
+            if shape == 0:
+                f = m.And(m.Or(g, d), d)
+            elif shape == 1:
+                f = m.Or(m.And(d, g), m.Not(d))
+            elif shape == 2:
+                f = m.Iff(m.Implies(g, d), d)
+            elif shape == 3:
+                d2 = rng.choice(uni.def_like)
+                f = m.And(m.Or(m.Not(g), d2), m.Or(d, m.And(g, d2)), d)
+            else:
+                f = m.Ite(m.And(g, d), m.Not(d), m.Or(d, g))
+        fs.append(f)
+    allf = m.And(fs)
+    cmds = [(smtcmd.SET_LOGIC, [rng.choice(["ALL", "QF_AUFBVLIRA", "UFLIA"])])]
+    seen = []
+    for ty in env.typeso.get_types(allf, custom_only=True):
+        if ty.decl not in seen:
+            seen.append(ty.decl)
+            cmds.append((smtcmd.DECLARE_SORT, [ty.decl]))
+    for sy in sorted(allf.get_free_variables(), key=lambda x: x.symbol_name()):
+        if not sy.symbol_type().is_function_type() and rng.random() < 0.3:
+            cmds.append((smtcmd.DECLARE_CONST, [sy]))
+        else:
+            cmds.append((smtcmd.DECLARE_FUN, [sy]))
+    # assertions with push/pop; `live` = the formulas in force at the end, with their level
+    level, live = 0, []
+    for i, f in enumerate(fs):
+        if i > 0 and rng.random() < 0.3:
+            n = rng.choice([1, 1, 2])
+            cmds.append((smtcmd.PUSH, [n]))
+            level += n
+        cmds.append((smtcmd.ASSERT, [f]))
+        live.append((level, f))
+        if level > 0 and rng.random() < 0.4:
+            n = rng.randint(1, level)
+            cmds.append((smtcmd.POP, [n]))
+            level -= n
+            live = [(l, g) for (l, g) in live if l <= level]
+    cmds.append((smtcmd.CHECK_SAT, []))
+    script = build_script(env, cmds)
+    try:
+        wire_cmds = [enc_cmd(c) for c in script.commands]
+        live_enc = [wire.enc_term(g) for (_, g) in live]
+    except wire.OutOfFragment:
+        ctx.count("out_of_fragment")
+        return []
+    kint = 4
+    interps = [ig.for_formula(allf) for _ in range(kint)]
+    interps_enc = " ".join(wire.enc_interp(*i) for i in interps)
+    texts = serialize_script(script, with_file)
+    info = case_info(allf, uni_info)
+    rd = " ; ".join(semantic.readable(f, 160) for f in fs)
+    cmds_enc = "%d %s" % (len(wire_cmds), " ".join(wire_cmds))
+    out = []
+    for p, dag in (("multi_tree", 0), ("multi_dag", 1), ("multi_file", 1)):
+        if p not in texts:
+            continue
+        st, txt = texts[p]
+        if st == "exc":
+            ctx.report_s({"oracle": "exception", "printer": p, "exc": txt.split(":")[0]},
+                         "%s serialisation raised %s" % (p, txt), {"formula": rd, "printer": p, "cmds_wire": wire_cmds})
+            continue
+        meta = (rd, info, texts, "", True, {"cmds_wire": wire_cmds})
+        out.append(("K:" + p, "cmp_cmds %d %s %s" % (dag, cmds_enc, hx(txt)), meta))
+        out.append(("S:" + p, "chk_cmds %d %s %d %s %s" % (kint, interps_enc, len(live_enc), " ".join(live_enc), hx(txt)),
+                    meta))
+    ctx.count("multi_scripts")
+    ctx.count("multi_live_%d" % len(live))
+    if any(any(n.startswith(".def_") for n in all_symbol_names(f)) for f in fs[1:]):
+        ctx.count("multi_with_def_like_symbol_in_later_assertion")
+    return out
+
+
 def gen_batch(ctx, n_env, per_env):
     """generate cases in `n_env` fresh environments -> (lines, meta)"""
     lines, meta = [], []
@@ -517,7 +676,7 @@ def gen_batch(ctx, n_env, per_env):
                     ctx.count("script_skipped_no_logic")
                 for tag, line in case_lines(enc, interps_enc, k, texts):
                     lines.append(line)
-                    meta.append((tag, rd, info, texts, enc, f.args() != ()))
+                    meta.append((tag, rd, info, texts, enc, f.args() != (), None))
                 ctx.count("type_" + str(ty).split("{")[0])
                 for o in info["known_ops"]:
                     ctx.count("has_" + o)
@@ -529,6 +688,13 @@ def gen_batch(ctx, n_env, per_env):
                     ctx.count("has_odd_string")
                 if len(ctx.samples) < 5 and j % 17 == 3:
                     ctx.sample({"formula": rd, "tree": texts["tree"][1][:300], "dag": texts["dag"][1][:300]})
+            # multi-command scripts (one printer object for several assertions)
+            fg.allow_known = False
+            for j in range(max(6, per_env // 5)):
+                for tag, line, (rd, info, texts, enc, nontriv, extra) in \
+                        gen_script_case(ctx, env, uni, fg, ig, uni_info, with_file=(j % 6 == 0)):
+                    lines.append(line)
+                    meta.append((tag, rd, info, texts, enc, nontriv, extra))
         finally:
             pop_env()
     return lines, meta
@@ -548,10 +714,10 @@ def run(ctx):
         except common.LeanError as e:
             ctx.report_l("driver C07 does not run", str(e))
             return
-        for line, ans, (tag, rd, info, texts, enc, nontriv) in zip(lines, answers, meta):
+        for line, ans, (tag, rd, info, texts, enc, nontriv, extra) in zip(lines, answers, meta):
             if tag.startswith("S:"):
-                ctx.case((tag + enc) if nontriv else None)
-            judge(ctx, tag, line, ans, rd, info, texts, enc)
+                ctx.case((tag + (enc or line[:4000])) if nontriv else None)
+            judge(ctx, tag, line, ans, rd, info, texts, enc, extra)
         total += len(lines)
         batches += 1
         dt = time.time() - t0
@@ -651,8 +817,68 @@ def build_fnode(env, enc):
     return built[-1]
 
 
+def build_cmds(env, wire_cmds):
+    """wire commands -> [(name, args)]"""
+    import pysmt.smtlib.commands as smtcmd
+    mgr, tm = env.formula_manager, env.type_manager
+    out = []
+    for w in wire_cmds:
+        tk = wire.Tok(w)
+        c = tk.next()
+        if c == "L":
+            out.append((smtcmd.SET_LOGIC, [unhx(tk.next())]))
+        elif c == "S":
+            name = unhx(tk.next())
+            ar = tk.nat()
+            d = tm.Type(name, ar)
+            out.append((smtcmd.DECLARE_SORT, [d if ar > 0 else d.decl]))
+        elif c in ("F", "C"):
+            name = unhx(tk.next())
+            ty = _ty_from_wire(tm, wire.dec_symty(tk))
+            out.append((smtcmd.DECLARE_FUN if c == "F" else smtcmd.DECLARE_CONST, [mgr.Symbol(name, ty)]))
+        elif c == "A":
+            out.append((smtcmd.ASSERT, [build_fnode(env, " ".join(tk.t[tk.i:]))]))
+        elif c == "P":
+            out.append((smtcmd.PUSH, [tk.nat()]))
+        elif c == "O":
+            out.append((smtcmd.POP, [tk.nat()]))
+        elif c == "K":
+            out.append((smtcmd.CHECK_SAT, []))
+    return out
+
+
+def replay_multi(ctx, r):
+    env = Environment()
+    push_env(env)
+    try:
+        script = build_script(env, build_cmds(env, r["cmds_wire"]))
+        texts = serialize_script(script, with_file=(r.get("printer") == "multi_file"))
+    finally:
+        pop_env()
+    printer = r.get("printer", "multi_dag")
+    st, txt = texts.get(printer, ("exc", "no such printer"))
+    print("script  :", r.get("formula"))
+    print("printer :", printer)
+    print("text now:\n" + txt[:2500])
+    if st == "exc":
+        ctx.report_s({"oracle": "exception", "printer": printer, "exc": txt.split(":")[0]},
+                     "%s serialisation raised %s" % (printer, txt), r)
+        return
+    toks = r["request"].split(" ")
+    toks[-1] = hx(txt)
+    line = " ".join(toks)
+    ans = ctx.lean_run("C07", [line])[0]
+    print("oracle  :", describe(ans) if not ans.startswith("ok") and ans != "same" else ans)
+    ctx.case(line[:4000])
+    info = r.get("info") or {"unspeakable": False, "odd_sort_name": False, "odd_string": False, "known_ops": []}
+    tag = ("K:" if toks[0].startswith("cmp") else "S:") + printer
+    judge(ctx, tag, line, ans, r.get("formula"), info, texts, "", {"cmds_wire": r["cmds_wire"]})
+
+
 def replay(ctx, rep):
     r = rep["replay"]
+    if r.get("cmds_wire"):
+        return replay_multi(ctx, r)
     env = Environment()
     push_env(env)
     try:
